@@ -145,6 +145,21 @@ def multi_calib():
     e2, _, Pi2 = sj.utilities.discretize.markov_rouwenhorst(rho=0.4, sigma=0.4, N=3)
     return dict(beta=0.94, r=0.02, sigma=1.5, w=1.0, a_grid=sj.utilities.discretize.agrid(40, 20), e1=e1, e2=e2, Pi_e0=Pi1, Pi_z0=Pi2, shift_e=0.0, shift_z=0.0)
 
+# ---- the two-exogenous-dimension household as a STAGE block: two exogenous stages whose Markov matrices come from SEPARATE hetinput functions ----
+def household_stage_md(Va, a_grid, y, r, beta, sigma):
+    c_nextgrid = (beta * Va) ** (-1 / sigma)
+    coh = (1 + r) * a_grid + y[..., np.newaxis]
+    a = sj.utilities.interpolate.interpolate_y(c_nextgrid + a_grid, coh, a_grid)
+    a = np.maximum(a, a_grid[0])
+    c = coh - a
+    uc = c ** (-sigma)
+    Va = (1 + r) * uc
+    return Va, a, c
+
+multi_stage = StageBlock([ExogenousMaker('Pi_e', 0, 'stage_e'), ExogenousMaker('Pi_z', 1, 'stage_z'),
+                          Continuous1D(backward='Va', policy='a', f=household_stage_md, name='stage_a')],
+                         name='hh_multi_stage', backward_init=household_init, hetinputs=(alter_e, alter_z, income_multi))
+
 # ---- the same with THREE independent exogenous dimensions, and as their Kronecker product ----
 @het(exogenous=['Pi_e', 'Pi_z', 'Pi_q'], policy='a', backward='Va', backward_init=household_init)
 def household_3dim(Va_p, a_grid, y, r, beta, sigma):
